@@ -77,7 +77,7 @@ func verifyUnit(p *Program, u *Unit) (res *UnitResult) {
 	}
 	// captured variables of a closure unit
 	if u.Lit != nil {
-		for _, cv := range r.capturedVars(u) {
+		for _, cv := range r.capturedAndOuterParams(u) {
 			if _, isFn := cv.Type().Underlying().(*types.Signature); isFn {
 				if cu := r.lookupVarUnit(cv); cu != nil {
 					r.varUnit[cv] = cu
@@ -109,6 +109,24 @@ func verifyUnit(p *Program, u *Unit) (res *UnitResult) {
 	for _, c := range u.Requires {
 		st.assume(r.specBool(env, c, "requires of "+u.Name))
 	}
+	for _, c := range u.Domain {
+		st.assume(r.specBool(env, c, "domain of "+u.Name))
+		r.assumption("property domain (assumed, not checked) in " + u.Name + ": " + c.Text)
+	}
+	if u.Implements != "" {
+		au, ok := p.Units[u.Implements]
+		if !ok {
+			panic(toolLimit("implements: no abstract contract " + u.Implements))
+		}
+		r.needFn()
+		self := Val{K: KFunc, Fn: &FuncVal{term: r.fresh("self", "Fn"), typ: u.Sig}}
+		st.ghost["self"] = self
+		r.bindEdgeGhost(st, u, self.Fn.term)
+		envI := &SpecEnv{run: r, st: st, old: r.entry, bound: map[string]Val{"self": self}}
+		for _, c := range au.Requires {
+			st.assume(r.specBool(envI, c, "call-state protocol of "+au.Name))
+		}
+	}
 	for _, g := range u.Ghost {
 		if g.Kind == "assume" {
 			st.assume(r.specBool(env, g.C, "ghost assume"))
@@ -124,6 +142,55 @@ func verifyUnit(p *Program, u *Unit) (res *UnitResult) {
 		r.finish(s2, nil, nil)
 	})
 	return
+}
+
+// capturedAndOuterParams: the variables a closure unit sees - those it references plus the parameters (and receiver)
+// of its enclosing functions, which its contract may mention even when the body does not.
+func (r *UnitRun) capturedAndOuterParams(u *Unit) []*types.Var {
+	out := r.capturedVars(u)
+	seen := map[*types.Var]bool{}
+	for _, v := range out {
+		seen[v] = true
+	}
+	for p := u.Parent; p != nil; p = p.Parent {
+		if p.Recv != nil && !seen[p.Recv] {
+			seen[p.Recv] = true
+			out = append(out, p.Recv)
+		}
+		for i := 0; i < p.Sig.Params().Len(); i++ {
+			v := p.Sig.Params().At(i)
+			if v.Name() == "" || v.Name() == "_" || seen[v] {
+				continue
+			}
+			shadowed := false
+			for _, w := range out {
+				if w.Name() == v.Name() {
+					shadowed = true
+				}
+			}
+			if !shadowed {
+				seen[v] = true
+				out = append(out, v)
+			}
+		}
+	}
+	return out
+}
+
+// bindEdgeGhost states srcOf(f) / tgtOf(f) for an escaping back-edge closure with function term f.
+func (r *UnitRun) bindEdgeGhost(st *State, u *Unit, f string) {
+	for _, x := range []struct{ fn, name string }{{"srcOf", u.Source}, {"tgtOf", u.Target}} {
+		if x.name == "" {
+			continue
+		}
+		obj, ok := st.names[x.name]
+		if !ok {
+			panic(toolLimit("source/target " + x.name + " of " + u.Name + " is not in scope"))
+		}
+		v := st.vars[obj]
+		r.needDomain(x.fn)
+		st.assume(eq(sx(x.fn, f), v.T))
+	}
 }
 
 // extraDeclText returns the on-demand declarations (domain functions, axioms) this unit needs.
